@@ -3,6 +3,7 @@
 Real: Parser, CodeGen, Loader, Machine, LightSet, LifxLanApi, lifx_lan_light.*.
 Simulated: the LAN (simnet), time (recording clock), output (recorder).
 """
+import logging
 import sys
 import types
 from collections import namedtuple
@@ -144,7 +145,9 @@ class World:
             LifxLAN=simnet.SimLan, errors=_real_lifxlan.errors)
         lifx_lan_api.configure()
         machine_mod.logging = self.log_rec
+        logging.disable(logging.CRITICAL)     # bardolph logs through the root logger; checks read recorders instead
         machine_mod.getch = lambda: '!'
+        machine_mod.print = lambda *a, **k: None      # `pause` / `breakpoint` chatter
         self.light_set = light_set_mod.LightSet()
         self.discover_ok = self.light_set.discover()
         injection.bind_instance(self.light_set).to(i_controller.LightSet)
